@@ -1,6 +1,7 @@
 //! fv — falcon verification driver. `fv <id> <quick|thorough>` orchestrates worker sub-processes
 //! (`--shard i/n`), merges what they observed, writes evidence and prints verdict lines.
 mod bv;
+mod explore;
 mod props;
 mod report;
 mod util;
